@@ -15,8 +15,18 @@ LEVEL_TEXT = ("For every tree, style, childiter and maxlevel the Lean mirror of 
 LEVEL_NOTE = ("Trusted: Lean kernel, standard axioms; the mirror lean/Anytree/Model/Render.lean; str.splitlines() and repr() of "
               "attribute values are CPython's (lines and value reprs are handed to the model); childiter assumed to return "
               "children it was given.")
-THEOREMS = []
-NOT_COVERED = []
+THEOREMS = [
+    ("Anytree.Props.C09.rows_eq_spec", "full"),
+    ("Anytree.Props.C09.root_row_empty", "full"),
+    ("Anytree.Props.C09.maxlevel_le_one", "full"),
+    ("Anytree.Props.C09.row_width", "full"),
+    ("Anytree.Props.C09.builtin_styles_equal_width", "full"),
+    ("Anytree.Props.C09.flagsAt_spec", "full"),
+    ("Anytree.Props.C09.decode_rows", "full"),
+    ("Anytree.Props.C09.formatRow_spec", "full"),
+    ("Anytree.Props.C09.formatRow_nonempty", "full"),
+]
+NOT_COVERED = ["repr() of attribute values and str.splitlines() are CPython's: the Node/AnyNode/SymlinkNode repr assembly (class name, separator-joined path, public attributes sorted by name) is mirrored (Render.nodeRepr) and compared by the correspondence run, not proved against a specification"]
 PREDICATE_SPEC = True
 RULE = ("all shapes up to N nodes (quick 5, thorough 6) x every start node, styles Ascii/Cont/ContRound/Double/custom equal-width, "
         "childiter in {list, reversed, sorted, filtering}, maxlevel in {None,0,1,2,3}, value modes {label, attribute, callable, "
